@@ -23,7 +23,7 @@ CLAIMED = {
             '(complete registry seeds, add-before-reuse); carry-over of factors/domains/start/edges; edge-placement guard truth table; caller-supplied avoid set honoured and seeded with the rule\'s own lhs; primal-graph vertices and cliques; child recursion iff not the parent bag',
             'parameter-forwarding dataflow; fresh-name typestate; guard truth tables'),
     'C06': ('element-wise wrapper homomorphism: the function applied to `default` equals the function applied to `physical` and the torch op of that name on every float class '
-            '(abstract interpretation of the method bodies); identities/defaults of commutative and binary(...) ops; in-place discipline and no-aliasing of self.physical by effect analysis; derived state (caches) follows its sources; defaults wrapped into tensors keep the dtype; slices computed from a dim parameter see it non-negative',
+            '(abstract interpretation of the method bodies); identities/defaults of commutative and binary(...) ops; in-place discipline and no-aliasing of self.physical by effect analysis; derived state (caches) follows its sources; defaults wrapped into tensors keep the dtype; the element-wise callback of binary/commutative never gets the raw physical tensors of both operands; slices computed from a dim parameter see it non-negative',
             'abstract interpretation over float classes; effect analysis'),
     'C07': ('einsum callbacks agree with the semiring mul on every class pair; operands default_to(zero) before unification and results default to from_int(0); '
             'mv/mm index strings; pointer trailing dimension agreement over all returns; co-indexing loop visits every (axis, index) position; stride-0 reduction only for sum-free equations',
